@@ -27,17 +27,27 @@ const dimension_type MAXDIM = 6;
 template <class D> void add_common_ops(ObjHarness<D>& H) {
   typedef ObjHarness<D> HH;
   constexpr Kind K = Dom<D>::kind;
+  // where the documentation promises the exact set (otherwise only soundness is judged)
+  constexpr bool EXACT_ADD = (K == POLY || K == SHAPE || K == BOX);
+  constexpr bool EXACT_AFFINE = (K == POLY || K == GRID);
+  (void) EXACT_ADD; (void) EXACT_AFFINE;
   // ---------------------------------------------------------------- adding information
   if constexpr (K != GRID) {
     H.add({ "add_constraint", 1, F_VAL | F_FAULT, 10,
       GENF { op.a.push_back(r.range(0, 5)); gen_expr(r, op, W, false); },
       PREPF { D* x = e.o[0]; Constraint k = HH::make_constraint(c, x->space_dimension(), HH::allow_strict(), true);
-              return [x, k]() { x->add_constraint(k); return std::string(); }; } });
+              return [x, k]() { Bits pre = defbits(*x); x->add_constraint(k);
+                if (g_def.active) { FaultPause fp; Bits lower = pre; auto& v = g_def.probes->of(x->space_dimension()); for (size_t i = 0; i < lower.size() && i < v.size(); ++i) lower[i] = lower[i] && oracle::sat(k, v[i]);
+                  if (EXACT_ADD) def_expect_eq("add_constraint", x->space_dimension(), defbits(*x), lower); else def_expect_between("add_constraint", x->space_dimension(), lower, defbits(*x), pre); }
+                return std::string(); }; } });
     H.add({ "add_constraints", 1, F_VAL | F_FAULT, 6,
       GENF { op.a.push_back(r.range(0, 2)); for (int k = 0; k < 3; ++k) { op.a.push_back(r.range(0, 5)); gen_expr(r, op, W, false); } },
       PREPF { D* x = e.o[0]; Constraint_System cs; long n = 1 + c.mod(3);
               for (long k = 0; k < n; ++k) cs.insert(HH::make_constraint(c, x->space_dimension(), HH::allow_strict(), true));
-              return [x, cs]() { x->add_constraints(cs); return std::string(); }; } });
+              return [x, cs]() { Bits pre = defbits(*x); x->add_constraints(cs);
+                if (g_def.active) { FaultPause fp; Bits lower = pre; auto& v = g_def.probes->of(x->space_dimension()); for (size_t i = 0; i < lower.size() && i < v.size(); ++i) lower[i] = lower[i] && oracle::sat_all(cs, v[i]);
+                  if (EXACT_ADD) def_expect_eq("add_constraints", x->space_dimension(), defbits(*x), lower); else def_expect_between("add_constraints", x->space_dimension(), lower, defbits(*x), pre); }
+                return std::string(); }; } });
     H.add({ "add_recycled_constraints", 1, F_VAL | F_FAULT, 2,
       GENF { for (int k = 0; k < 2; ++k) { op.a.push_back(r.range(0, 5)); gen_expr(r, op, W, false); } },
       PREPF { D* x = e.o[0]; std::shared_ptr<Constraint_System> cs(new Constraint_System);
@@ -47,19 +57,32 @@ template <class D> void add_common_ops(ObjHarness<D>& H) {
   H.add({ "refine_with_constraint", 1, F_VAL | F_FAULT, 6,
     GENF { op.a.push_back(r.range(0, 5)); gen_expr(r, op, W, false); },
     PREPF { D* x = e.o[0]; Constraint k = HH::make_constraint(c, x->space_dimension(), true, false);
-            return [x, k]() { x->refine_with_constraint(k); return std::string(); }; } });
+            return [x, k]() { Bits pre = defbits(*x); x->refine_with_constraint(k);
+              if (g_def.active) { FaultPause fp; Bits lower = pre; auto& v = g_def.probes->of(x->space_dimension()); for (size_t i = 0; i < lower.size() && i < v.size(); ++i) lower[i] = lower[i] && oracle::sat(k, v[i]);
+                bool exact = (K == POLY) && (Dom<D>::nnc || !k.is_strict_inequality());
+                if (exact) def_expect_eq("refine_with_constraint", x->space_dimension(), defbits(*x), lower); else def_expect_between("refine_with_constraint", x->space_dimension(), lower, defbits(*x), pre); }
+              return std::string(); }; } });
   H.add({ "refine_with_constraints", 1, F_VAL | F_FAULT, 3,
     GENF { for (int k = 0; k < 2; ++k) { op.a.push_back(r.range(0, 5)); gen_expr(r, op, W, false); } },
     PREPF { D* x = e.o[0]; Constraint_System cs; for (long k = 0; k < 2; ++k) cs.insert(HH::make_constraint(c, x->space_dimension(), true, false));
-            return [x, cs]() { x->refine_with_constraints(cs); return std::string(); }; } });
+            return [x, cs]() { Bits pre = defbits(*x); x->refine_with_constraints(cs);
+              if (g_def.active) { FaultPause fp; Bits lower = pre; auto& v = g_def.probes->of(x->space_dimension()); for (size_t i = 0; i < lower.size() && i < v.size(); ++i) lower[i] = lower[i] && oracle::sat_all(cs, v[i]);
+                def_expect_between("refine_with_constraints", x->space_dimension(), lower, defbits(*x), pre); }
+              return std::string(); }; } });
   H.add({ "refine_with_congruence", 1, F_VAL | F_FAULT, 3,
     GENF { gen_expr(r, op, W, false); op.a.push_back(r.range(0, 6)); },
     PREPF { D* x = e.o[0]; Congruence k = HH::make_congruence(c, x->space_dimension());
-            return [x, k]() { x->refine_with_congruence(k); return std::string(); }; } });
+            return [x, k]() { Bits pre = defbits(*x); x->refine_with_congruence(k);
+              if (g_def.active) { FaultPause fp; Bits lower = pre; auto& v = g_def.probes->of(x->space_dimension()); for (size_t i = 0; i < lower.size() && i < v.size(); ++i) lower[i] = lower[i] && oracle::sat(k, v[i]);
+                if (K == GRID || (K == POLY && k.is_equality())) def_expect_eq("refine_with_congruence", x->space_dimension(), defbits(*x), lower); else def_expect_between("refine_with_congruence", x->space_dimension(), lower, defbits(*x), pre); }
+              return std::string(); }; } });
   H.add({ "add_congruence", 1, F_VAL | F_FAULT, K == GRID ? 10 : 2,
     GENF { gen_expr(r, op, W, false); op.a.push_back(r.chance(50) ? 0 : r.range(0, 6)); },
     PREPF { D* x = e.o[0]; Congruence k = HH::make_congruence(c, x->space_dimension());
-            return [x, k]() { x->add_congruence(k); return std::string(); }; } });
+            return [x, k]() { Bits pre = defbits(*x); x->add_congruence(k);
+              if (g_def.active) { FaultPause fp; Bits lower = pre; auto& v = g_def.probes->of(x->space_dimension()); for (size_t i = 0; i < lower.size() && i < v.size(); ++i) lower[i] = lower[i] && oracle::sat(k, v[i]);
+                if (K == GRID || K == POLY) def_expect_eq("add_congruence", x->space_dimension(), defbits(*x), lower); else def_expect_between("add_congruence", x->space_dimension(), lower, defbits(*x), pre); }
+              return std::string(); }; } });
   H.add({ "add_congruences", 1, F_VAL | F_FAULT, K == GRID ? 6 : 1,
     GENF { for (int k = 0; k < 2; ++k) { gen_expr(r, op, W, false); op.a.push_back(r.chance(50) ? 0 : r.range(0, 6)); } },
     PREPF { D* x = e.o[0]; Congruence_System cgs; for (int k = 0; k < 2; ++k) cgs.insert(HH::make_congruence(c, x->space_dimension()));
@@ -100,11 +123,17 @@ template <class D> void add_common_ops(ObjHarness<D>& H) {
   }
   // ---------------------------------------------------------------- binary operators
   H.add({ "intersection_assign", 2, F_VAL | F_FAULT | F_SAMEDIM, 8, NOGEN,
-    PREPF { D* x = e.o[0]; const D* y = e.o[1]; return [x, y]() { x->intersection_assign(*y); return std::string(); }; } });
+    PREPF { D* x = e.o[0]; const D* y = e.o[1]; return [x, y]() { Bits px = defbits(*x), py = defbits(*y); x->intersection_assign(*y);
+              if (g_def.active) { Bits want = px; for (size_t i = 0; i < want.size() && i < py.size(); ++i) want[i] = px[i] && py[i]; def_expect_eq("intersection", x->space_dimension(), defbits(*x), want); }
+              return std::string(); }; } });
   H.add({ "upper_bound_assign", 2, F_VAL | F_FAULT | F_SAMEDIM, 8, NOGEN,
-    PREPF { D* x = e.o[0]; const D* y = e.o[1]; return [x, y]() { x->upper_bound_assign(*y); return std::string(); }; } });
+    PREPF { D* x = e.o[0]; const D* y = e.o[1]; return [x, y]() { Bits px = defbits(*x), py = defbits(*y); x->upper_bound_assign(*y);
+              if (g_def.active) { Bits lower = px; for (size_t i = 0; i < lower.size() && i < py.size(); ++i) lower[i] = px[i] || py[i]; def_expect_sub("upper_bound", x->space_dimension(), lower, defbits(*x)); }
+              return std::string(); }; } });
   H.add({ "difference_assign", 2, F_VAL | F_FAULT | F_SAMEDIM, 6, NOGEN,
-    PREPF { D* x = e.o[0]; const D* y = e.o[1]; return [x, y]() { x->difference_assign(*y); return std::string(); }; } });
+    PREPF { D* x = e.o[0]; const D* y = e.o[1]; return [x, y]() { Bits px = defbits(*x), py = defbits(*y); x->difference_assign(*y);
+              if (g_def.active) { Bits lower = px; for (size_t i = 0; i < lower.size() && i < py.size(); ++i) lower[i] = px[i] && !py[i]; def_expect_between("difference", x->space_dimension(), lower, defbits(*x), px); }
+              return std::string(); }; } });
   H.add({ "time_elapse_assign", 2, F_VAL | F_FAULT | F_SAMEDIM, 4, NOGEN,
     PREPF { D* x = e.o[0]; const D* y = e.o[1]; return [x, y]() { x->time_elapse_assign(*y); return std::string(); }; } });
   if constexpr (K == POLY) {
@@ -117,22 +146,47 @@ template <class D> void add_common_ops(ObjHarness<D>& H) {
   }
   H.add({ "upper_bound_assign_if_exact", 2, F_VAL | F_ANS | F_FAULT | F_SAMEDIM, 4, NOGEN,
     PREPF { D* x = e.o[0]; const D* y = e.o[1]; return [x, y]() { return b2s(x->upper_bound_assign_if_exact(*y)); }; } });
+  if constexpr (K != PROD) {
   H.add({ "simplify_using_context_assign", 2, F_ANS | F_FAULT | F_SAMEDIM, 3, NOGEN,
     PREPF { D* x = e.o[0]; const D* y = e.o[1]; return [x, y]() { return b2s(x->simplify_using_context_assign(*y)); }; } });
+  }
   H.add({ "concatenate_assign", 2, F_VAL | F_FAULT, 2, NOGEN,
     PREPF { D* x = e.o[0]; const D* y = e.o[1]; if (x->space_dimension() + y->space_dimension() > MAXDIM) return skip_call();
-            return [x, y]() { x->concatenate_assign(*y); return std::string(); }; } });
+            return [x, y]() { std::shared_ptr<D> bx, by; if (g_def.active) { FaultPause fp; bx.reset(new D(*x)); by.reset(new D(*y)); }
+              dimension_type n = x->space_dimension(), m = y->space_dimension(); x->concatenate_assign(*y);
+              if (g_def.active) { FaultPause fp; D post(*x); auto& v = g_def.probes->of(n + m);
+                for (size_t i = 0; i < v.size(); ++i) { QPoint a(v[i].begin(), v[i].begin() + (long) n), b(v[i].begin() + (long) n, v[i].end());
+                  bool want = member_of(*bx, a) && member_of(*by, b);
+                  if (member_of(post, v[i]) != want) { def_violation("def-concatenate", "point " + oracle::show(v[i]) + (want ? " is lost" : " is gained")); break; } } }
+              return std::string(); }; } });
   // ---------------------------------------------------------------- affine transformers
   H.add({ "affine_image", 1, F_VAL | F_FAULT, 6,
     GENF { op.a.push_back(r.range(0, 5)); gen_expr(r, op, W, false); op.a.push_back(r.chance(3) ? 0 : r.range(-3, 3)); },
     PREPF { D* x = e.o[0]; dimension_type n = x->space_dimension(); if (n == 0) return skip_call();
             Variable v((dimension_type) c.mod((long) n)); Linear_Expression le = c.expr(n); Coefficient den = coef(c.next());
-            return [x, v, le, den]() { x->affine_image(v, le, den); return std::string(); }; } });
+            return [x, v, le, den]() { std::shared_ptr<D> before; if (g_def.active) { FaultPause fp; before.reset(new D(*x)); }
+              x->affine_image(v, le, den);
+              mpq_class a(le.coefficient(v));
+              if (g_def.active && a != 0 && den != 0) { FaultPause fp; D post(*x); D pre(*before); dimension_type n = x->space_dimension(); auto& pv = g_def.probes->of(n);
+                // invertible map: p is in the image iff f^-1(p) was in the set
+                for (size_t i = 0; i < pv.size(); ++i) { QPoint q = pv[i]; mpq_class rest = eval_le(le, pv[i]) - a * pv[i][v.id()];
+                  mpq_class val = (mpq_class(den) * pv[i][v.id()] - rest) / a; val.canonicalize(); q[v.id()] = val;
+                  bool want = member_of(pre, q), got = member_of(post, pv[i]);
+                  if (want && !got) { def_violation("def-affine_image", "point " + oracle::show(pv[i]) + " is lost"); break; }
+                  if (EXACT_AFFINE && got && !want) { def_violation("def-affine_image", "point " + oracle::show(pv[i]) + " is gained"); break; } } }
+              return std::string(); }; } });
   H.add({ "affine_preimage", 1, F_VAL | F_FAULT, 5,
     GENF { op.a.push_back(r.range(0, 5)); gen_expr(r, op, W, false); op.a.push_back(r.chance(3) ? 0 : r.range(-3, 3)); },
     PREPF { D* x = e.o[0]; dimension_type n = x->space_dimension(); if (n == 0) return skip_call();
             Variable v((dimension_type) c.mod((long) n)); Linear_Expression le = c.expr(n); Coefficient den = coef(c.next());
-            return [x, v, le, den]() { x->affine_preimage(v, le, den); return std::string(); }; } });
+            return [x, v, le, den]() { std::shared_ptr<D> before; if (g_def.active) { FaultPause fp; before.reset(new D(*x)); }
+              x->affine_preimage(v, le, den);
+              if (g_def.active && den != 0) { FaultPause fp; D post(*x); D pre(*before); dimension_type n = x->space_dimension(); auto& pv = g_def.probes->of(n);
+                for (size_t i = 0; i < pv.size(); ++i) { QPoint q = pv[i]; mpq_class val = eval_le(le, pv[i]) / mpq_class(den); val.canonicalize(); q[v.id()] = val;
+                  bool want = member_of(pre, q), got = member_of(post, pv[i]);
+                  if (want && !got) { def_violation("def-affine_preimage", "point " + oracle::show(pv[i]) + " is lost"); break; }
+                  if (EXACT_AFFINE && got && !want) { def_violation("def-affine_preimage", "point " + oracle::show(pv[i]) + " is gained"); break; } } }
+              return std::string(); }; } });
   if constexpr (K != GRID) {
     H.add({ "generalized_affine_image", 1, F_VAL | F_FAULT, 5,
       GENF { op.a.push_back(r.range(0, 5)); op.a.push_back(r.range(0, 4)); gen_expr(r, op, W, false); op.a.push_back(r.chance(3) ? 0 : r.range(-3, 3)); },
@@ -190,7 +244,13 @@ template <class D> void add_common_ops(ObjHarness<D>& H) {
   H.add({ "unconstrain", 1, F_VAL | F_FAULT, 3,
     GENF { op.a.push_back(r.range(0, 5)); },
     PREPF { D* x = e.o[0]; dimension_type n = x->space_dimension(); if (n == 0) return skip_call();
-            Variable v((dimension_type) c.mod((long) n)); return [x, v]() { x->unconstrain(v); return std::string(); }; } });
+            Variable v((dimension_type) c.mod((long) n)); return [x, v]() { Bits pre = defbits(*x); x->unconstrain(v);
+              if (g_def.active) { FaultPause fp; Bits post = defbits(*x); def_expect_sub("unconstrain", x->space_dimension(), pre, post);
+                // cylindrification: a point that differs from a member only in coordinate v is a member
+                auto& pv = g_def.probes->of(x->space_dimension()); bool bad = false;
+                for (size_t i = 0; i < pv.size() && !bad; ++i) if (!post[i]) for (size_t j = 0; j < pv.size(); ++j) if (pre[j]) { bool same = true; for (size_t q = 0; q < pv[i].size(); ++q) if (q != v.id() && pv[i][q] != pv[j][q]) { same = false; break; }
+                  if (same) { def_violation("def-unconstrain", "point " + oracle::show(pv[i]) + " differs from a member only in the unconstrained coordinate but is not in the result"); bad = true; break; } } }
+              return std::string(); }; } });
   H.add({ "unconstrain_set", 1, F_VAL | F_FAULT, 2,
     GENF { op.a.push_back(r.range(0, 63)); },
     PREPF { D* x = e.o[0]; dimension_type n = x->space_dimension(); long mask = c.mod(64); Variables_Set vs;
@@ -202,7 +262,12 @@ template <class D> void add_common_ops(ObjHarness<D>& H) {
   H.add({ "add_space_dimensions_and_embed", 1, F_VAL | F_FAULT, 2,
     GENF { op.a.push_back(r.range(0, 2)); },
     PREPF { D* x = e.o[0]; dimension_type m = (dimension_type) c.mod(3); if (x->space_dimension() + m > MAXDIM) return skip_call();
-            return [x, m]() { x->add_space_dimensions_and_embed(m); return std::string(); }; } });
+            return [x, m]() { std::shared_ptr<D> before; dimension_type n = x->space_dimension(); if (g_def.active) { FaultPause fp; before.reset(new D(*x)); }
+              x->add_space_dimensions_and_embed(m);
+              if (g_def.active) { FaultPause fp; D post(*x); auto& pv = g_def.probes->of(n + m);
+                for (size_t i = 0; i < pv.size(); ++i) { QPoint a(pv[i].begin(), pv[i].begin() + (long) n); bool want = member_of(*before, a);
+                  if (member_of(post, pv[i]) != want) { def_violation("def-embed", "point " + oracle::show(pv[i]) + (want ? " is lost" : " is gained")); break; } } }
+              return std::string(); }; } });
   H.add({ "add_space_dimensions_and_project", 1, F_VAL | F_FAULT, 2,
     GENF { op.a.push_back(r.range(0, 2)); },
     PREPF { D* x = e.o[0]; dimension_type m = (dimension_type) c.mod(3); if (x->space_dimension() + m > MAXDIM) return skip_call();
@@ -238,7 +303,9 @@ template <class D> void add_common_ops(ObjHarness<D>& H) {
             for (dimension_type i = 0; i < n; ++i) if ((mask & (1L << i)) && i != dest.id()) vs.insert(Variable(i));
             return [x, vs, dest]() { x->fold_space_dimensions(vs, dest); return std::string(); }; } });
   // ---------------------------------------------------------------- observers
-  H.add({ "is_empty", 1, F_OBS | F_ANS | F_FAULT, 5, NOGEN, PREPF { D* x = e.o[0]; return [x]() { return b2s(x->is_empty()); }; } });
+  H.add({ "is_empty", 1, F_OBS | F_ANS | F_FAULT, 5, NOGEN, PREPF { D* x = e.o[0]; return [x]() { bool b = x->is_empty();
+      if (g_def.active && b) { Bits a = defbits(*x); for (bool q : a) if (q) { def_violation("def-is_empty", "is_empty() is true but a probe point is in the set"); break; } }
+      return b2s(b); }; } });
   H.add({ "is_universe", 1, F_OBS | F_ANS | F_FAULT, 3, NOGEN, PREPF { D* x = e.o[0]; return [x]() { return b2s(x->is_universe()); }; } });
   H.add({ "is_bounded", 1, F_OBS | F_ANS | F_FAULT, 3, NOGEN, PREPF { D* x = e.o[0]; return [x]() { return b2s(x->is_bounded()); }; } });
   H.add({ "is_topologically_closed", 1, F_OBS | F_ANS | F_FAULT, 2, NOGEN, PREPF { D* x = e.o[0]; return [x]() { return b2s(x->is_topologically_closed()); }; } });
@@ -258,21 +325,32 @@ template <class D> void add_common_ops(ObjHarness<D>& H) {
     GENF { gen_expr(r, op, W, false); },
     PREPF { D* x = e.o[0]; Linear_Expression le = c.expr(x->space_dimension());
             return [x, le]() { Coefficient n, d; bool mx; bool b = x->maximize(le, n, d, mx); FaultPause fp; if (!b) return std::string("F");
-                               mpq_class q(n, d); q.canonicalize(); return "T:" + q.get_str() + ":" + b2s(mx); }; } });
+                               mpq_class q(n, d); q.canonicalize();
+                               if (g_def.active) { Bits px = defbits(*x); auto& v = g_def.probes->of(x->space_dimension());
+                                 for (size_t i = 0; i < px.size() && i < v.size(); ++i) if (px[i]) { mpq_class ev = eval_le(le, v[i]); if (ev > q || (ev == q && !mx && K != GRID)) { def_violation("def-maximize", "supremum " + q.get_str() + " but member point " + oracle::show(v[i]) + " evaluates to " + ev.get_str()); break; } } }
+                               return "T:" + q.get_str() + ":" + b2s(mx); }; } });
   H.add({ "minimize", 1, F_OBS | F_ANS | F_FAULT, 4,
     GENF { gen_expr(r, op, W, false); },
     PREPF { D* x = e.o[0]; Linear_Expression le = c.expr(x->space_dimension());
             return [x, le]() { Coefficient n, d; bool mn; bool b = x->minimize(le, n, d, mn); FaultPause fp; if (!b) return std::string("F");
                                mpq_class q(n, d); q.canonicalize(); return "T:" + q.get_str() + ":" + b2s(mn); }; } });
+  if constexpr (K != PROD) {
   H.add({ "frequency", 1, F_OBS | F_ANS | F_FAULT, 2,
     GENF { gen_expr(r, op, W, false); },
     PREPF { D* x = e.o[0]; Linear_Expression le = c.expr(x->space_dimension());
             return [x, le]() { Coefficient fn, fd, vn, vd; bool b = x->frequency(le, fn, fd, vn, vd); FaultPause fp; if (!b) return std::string("F");
                                mpq_class f(fn, fd), v(vn, vd); f.canonicalize(); v.canonicalize(); return "T:" + f.get_str() + ":" + v.get_str(); }; } });
+  }
   H.add({ "relation_with_constraint", 1, F_OBS | F_ANS | F_FAULT, 5,
     GENF { op.a.push_back(r.range(0, 5)); gen_expr(r, op, W, false); },
     PREPF { D* x = e.o[0]; Constraint k = HH::make_constraint(c, x->space_dimension(), true, false);
-            return [x, k]() { return rel_str(x->relation_with(k)); }; } });
+            return [x, k]() { auto rel = x->relation_with(k);
+              if (g_def.active) { FaultPause fp; Bits px = defbits(*x); auto& v = g_def.probes->of(x->space_dimension());
+                for (size_t i = 0; i < px.size() && i < v.size(); ++i) if (px[i]) { bool st = oracle::sat(k, v[i]);
+                  if (rel.implies(PPL::Poly_Con_Relation::is_included()) && !st) { def_violation("def-relation_with", "IS_INCLUDED but member point " + oracle::show(v[i]) + " violates the constraint"); break; }
+                  if (rel.implies(PPL::Poly_Con_Relation::is_disjoint()) && st) { def_violation("def-relation_with", "IS_DISJOINT but member point " + oracle::show(v[i]) + " satisfies the constraint"); break; }
+                  if (rel.implies(PPL::Poly_Con_Relation::saturates()) && eval_le(Linear_Expression(k.expression()), v[i]) != 0) { def_violation("def-relation_with", "SATURATES but member point " + oracle::show(v[i]) + " is not on the hyperplane"); break; } } }
+              return rel_str(rel); }; } });
   H.add({ "relation_with_congruence", 1, F_OBS | F_ANS | F_FAULT, 3,
     GENF { gen_expr(r, op, W, false); op.a.push_back(r.range(0, 6)); },
     PREPF { D* x = e.o[0]; Congruence k = HH::make_congruence(c, x->space_dimension());
@@ -290,11 +368,16 @@ template <class D> void add_common_ops(ObjHarness<D>& H) {
               return [x, g]() { return rel_str(x->relation_with(g)); };
             } } });
   H.add({ "contains", 2, F_OBS | F_ANS | F_FAULT | F_SAMEDIM, 5, NOGEN,
-    PREPF { D* x = e.o[0]; const D* y = e.o[1]; return [x, y]() { return b2s(x->contains(*y)); }; } });
+    PREPF { D* x = e.o[0]; const D* y = e.o[1]; return [x, y]() { bool b = x->contains(*y);
+      if (g_def.active) { Bits px = defbits(*x), py = defbits(*y); bool sub = bits_subset(py, px);
+        if (b && !sub) def_violation("def-contains", "contains() is true but a probe point of the argument is not in the receiver"); }
+      return b2s(b); }; } });
   H.add({ "strictly_contains", 2, F_OBS | F_ANS | F_FAULT | F_SAMEDIM, 3, NOGEN,
     PREPF { D* x = e.o[0]; const D* y = e.o[1]; return [x, y]() { return b2s(x->strictly_contains(*y)); }; } });
   H.add({ "is_disjoint_from", 2, F_OBS | F_ANS | F_FAULT | F_SAMEDIM, 4, NOGEN,
-    PREPF { D* x = e.o[0]; const D* y = e.o[1]; return [x, y]() { return b2s(x->is_disjoint_from(*y)); }; } });
+    PREPF { D* x = e.o[0]; const D* y = e.o[1]; return [x, y]() { bool b = x->is_disjoint_from(*y);
+      if (g_def.active && b) { Bits px = defbits(*x), py = defbits(*y); for (size_t i = 0; i < px.size() && i < py.size(); ++i) if (px[i] && py[i]) { def_violation("def-is_disjoint_from", "is_disjoint_from() is true but point " + probe_str(x->space_dimension(), i) + " lies in both"); break; } }
+      return b2s(b); }; } });
   H.add({ "equals", 2, F_OBS | F_ANS | F_FAULT, 4, NOGEN,
     PREPF { D* x = e.o[0]; const D* y = e.o[1]; return [x, y]() { return b2s(*x == *y); }; } });
   // getters: drive the lazy representation; nothing value-determined is returned
